@@ -103,7 +103,7 @@ theorem drain_safe (cum : Nat) (q : List (Nat × Nat × Array UInt8)) (fuel : Na
     · rename_i e he
       apply safe_pure
       have hmem := List.mem_of_find?_eq_some he
-      have hp : e.1 = (cum + 1 + st.1.length) % 4294967296 := by simpa using List.find?_some he
+      have hp : e.1 = u32add cum (1 + st.1.length) := by simpa using List.find?_some he
       refine ⟨⟨rfl, rfl, ?_, qok_filter _ h2⟩, filter_tsn_lt _ _ e hmem hp⟩
       intro x hx
       rcases List.mem_cons.mp hx with rfl | hx
@@ -262,5 +262,85 @@ theorem reconfigLoop_safe (s : St) (fuel : Nat) {Q b n} (hf : b.rem < fuel) (hs 
     all_goals (first | exact hs' | (ok_frame hs') | skip)
   · exact hs
   · exact hf
+
+attribute [local irreducible] handleInitSt handleInitAckSt handleSackSt handleForwardTsnSt
+
+set_option maxRecDepth 8192 in
+theorem handleChunkSt_safe (s : St) (ct flags : Nat) (v : Buf) {Q b n} (hs : s.Ok)
+    (h : ∀ s' n', s'.Ok → Q s' b n') : safe T (handleChunkSt s ct flags v) Q b n := by
+  unfold handleChunkSt
+  apply safe_bind; apply safe_onBuf
+  have fin : ∀ (s' : St) (sub' : Buf) (n' : Nat), s'.Ok → safe T (pure (s', sub').1 : Cur St) Q b n' :=
+    fun s' _ n' hs' => safe_pure (h s' n' hs')
+  apply safe_ite <;> intro h1
+  · apply handleInitSt_safe _ hs; intro s' b' n' hs'; exact fin _ _ _ hs'
+  apply safe_ite <;> intro h2
+  · apply handleInitAckSt_safe _ hs; intro s' b' n' hs'; exact fin _ _ _ hs'
+  apply safe_ite <;> intro h3
+  · apply safe_bind; apply safe_restSlice; intro ck _
+    apply safe_ite <;> intro hc
+    · apply safe_pure; exact fin _ _ _ hs
+    · apply safe_pure; apply fin; ok_frame hs
+  apply safe_ite <;> intro h4
+  · apply safe_pure; apply fin; ok_frame hs
+  apply safe_ite <;> intro h5
+  · apply safe_bind; apply safe_restSlice; intro body _
+    apply handleDataSt_safe _ _ _ hs
+    intro s' n' hs'; exact fin _ _ _ hs'
+  apply safe_ite <;> intro h6
+  · apply handleSackSt_safe _ hs; intro s' b' n' hs'; exact fin _ _ _ hs'
+  apply safe_ite <;> intro h7
+  · apply safe_bind; apply safe_restSlice; intro body _
+    apply safe_pure; apply fin; ok_frame hs
+  apply safe_ite <;> intro h8
+  · apply handleForwardTsnSt_safe _ hs; intro s' b' n' hs'; exact fin _ _ _ hs'
+  apply safe_ite <;> intro h9
+  · apply safe_bind; apply safe_remaining
+    apply reconfigLoop_safe _ _ (by omega) hs
+    intro s' b' n' hs'; exact fin _ _ _ hs'
+  apply safe_ite <;> intro h10
+  · apply safe_pure; apply fin; ok_frame hs
+  apply safe_ite <;> intro h11
+  · apply safe_pure; apply fin; ok_frame hs
+  apply safe_ite <;> intro h12
+  · apply safe_pure; apply fin; ok_frame hs
+  · apply safe_pure; exact fin _ _ _ hs
+
+attribute [local irreducible] handleChunkSt
+
+theorem handlePacketSt_safe (s : St) (crcOk : Bool) {Q b n} (hs : s.Ok)
+    (h : ∀ s' b' n', s'.Ok → Q s' b' n') : safe T (handlePacketSt s crcOk) Q b n := by
+  unfold handlePacketSt
+  simp only [c07SctpCommonHeader_val]
+  cur_auto
+  any_goals (apply h; exact hs)
+  apply safe_loop (fun s' _ _ => s'.Ok) (fun _ b' => b'.rem)
+  · intro s' b' n' hs'
+    unfold chunkWalkBodySt
+    simp only [c07ChunkHeaderSize_val]
+    cur_auto
+    any_goals (apply h; exact hs')
+    all_goals (apply handleChunkSt_safe _ _ _ _ hs'; intro s'' n'' hs''; cur_auto)
+    all_goals (first | (apply h; exact hs'') | exact hs'' | skip)
+  · exact hs
+  · omega
+
+attribute [local irreducible] handlePacketSt
+
+/-- every packet history on one association: no panic, every loop is left, and the queue invariant is kept -/
+theorem runHistory_safe (ps : List Pkt) (s : St) (b : Buf) (n : Nat) (hs : s.Ok) :
+    safe T (runHistory s ps) (fun _ _ _ => True) b n := by
+  induction ps generalizing s n with
+  | nil => unfold runHistory; exact safe_pure trivial
+  | cons p rest ih =>
+    unfold runHistory
+    apply safe_bind; apply safe_onBuf
+    apply handlePacketSt_safe _ _ (show St.Ok { s with ev := [], failed := false } from hs)
+    intro s' b' n' hs'
+    dsimp only
+    apply safe_bind
+    apply safe_mono (ih { s' with cookies := p.issued ++ s'.cookies } n' (show St.Ok { s' with cookies := p.issued ++ s'.cookies } from hs'))
+    intro _ _ _ _
+    exact safe_pure trivial
 
 end RtcModel.C07.SctpSt
